@@ -11,7 +11,8 @@ sys.path.insert(0, os.path.join(common.VERIF, "tx"))
 import canosched as tx
 
 KINDS = {"mps": ["random", "product", "add", "dup", "apply", "apply_add", "scaled", "recentred",
-                 "canon_sum_r", "canon_sum_l", "canon_diff_r", "canon_diff_l"],
+                 "canon_sum_r", "canon_sum_l", "canon_diff_r", "canon_diff_l",
+                 "near_l_9", "near_l_7", "near_l_6", "near_r_9", "near_r_7", "near_r_6"],
          "mpdm": ["random", "add", "apply", "dup", "canon_sum_r", "canon_sum_l"],
          "mpo": ["plain", "add", "product", "identity", "conj_trans"]}
 
@@ -399,6 +400,9 @@ def run(ctx):
             "qn_valid_checks (valid before => valid after)": stats.get("qn_valid_before", 0), "label_sweeps_compared_with_model": n_lab,
             "schedule_records_compared": n_sched, "distinct_schedule_calls": n_keys, "iter_switch_grid_points": n_iter,
             "ensure_calls_returning_untouched (isometry still checked independently)": stats.get("ensure_untouched", 0),
+            "near_canonical_inputs (Gram defect 1e-9/1e-7/1e-6; ensure_* sweep vs untouched)": stats.get("near_canonical", {}),
+            "untouched_sites_within_documented_tolerance": stats.get("untouched_within_documented_tolerance", 0),
+            "compressed_sum_checks": stats.get("compressed_sum_checks", 0), "max_compressed_sum_relerr": stats.get("max_compressed_sum_err"),
             "malformed_entry_calls": stats.get("malformed", 0), "oracle_ops": stats.get("ops", 0), "isometry_site_checks": stats.get("iso_sites", 0),
             "max_dense_relerr": stats.get("max_dense_err"), "max_isometry_dev": stats.get("max_iso_dev"),
             "max_scaled_isometry_dev_mpo": stats.get("max_iso_dev_scaled"),
